@@ -17,13 +17,16 @@ Lemma get_ivar_char len ivar jit new_ivar :
   forall i : nat, get_ivar fo len ivar jit new_ivar i = if (Z.of_nat i <? len) then jittered ivar jit i else new_ivar i.
 Proof.
   intros Hlen. unfold get_ivar.
-  apply (for_rangeZ_inv (fun k (a : arr1 F) => forall i : nat, a i = if (Z.of_nat i <? k) then jittered ivar jit i else new_ivar i)); [exact Hlen| |].
-  - intros i. destruct (Z.of_nat i <? 0) eqn:E; [lia|reflexivity].
-  - intros k a Hk IH i. unfold upd1.
-    destruct (Nat.eqb i (Z.to_nat k)) eqn:E.
-    + apply Nat.eqb_eq in E. subst i. replace (Z.of_nat (Z.to_nat k) <? k + 1) with true by lia. reflexivity.
-    + apply Nat.eqb_neq in E. rewrite IH.
-      destruct (Z.of_nat i <? k) eqn:E1; destruct (Z.of_nat i <? k + 1) eqn:E2; try reflexivity; lia.
+  assert (H : forall k i, for_range k (fun i0 (a : arr1 F) => upd1 a i0 (jittered ivar jit i0)) new_ivar i
+                        = if (i <? k)%nat then jittered ivar jit i else new_ivar i).
+  { induction k as [|k IH]; intros i; [reflexivity|]. cbn [for_range]. unfold upd1 at 1.
+    destruct (Nat.eqb i k) eqn:E.
+    - apply Nat.eqb_eq in E. subst i. replace (k <? S k)%nat with true by (symmetry; apply Nat.ltb_lt; lia). reflexivity.
+    - apply Nat.eqb_neq in E. rewrite IH.
+      destruct (Nat.ltb_spec i k) as [H1|H1]; destruct (Nat.ltb_spec i (S k)) as [H2|H2]; try reflexivity; lia. }
+  intros i. change (fun (i0 : nat) (new_ivar0 : arr1 F) => upd1 new_ivar0 i0 (fdiv fo (ivar i0) (fadd fo (fz fo 1) (fmul fo (fmul fo jit jit) (ivar i0)))))
+    with (fun i0 (a : arr1 F) => upd1 a i0 (jittered ivar jit i0)).
+  rewrite H. destruct (Nat.ltb_spec i (Z.to_nat len)) as [H1|H1]; destruct (Z.ltb_spec (Z.of_nat i) len) as [H2|H2]; try reflexivity; lia.
 Qed.
 End Char.
 
